@@ -99,6 +99,43 @@ def main():
             for p, ls in r.get("lines", {}).items():
                 for l in ls:
                     print("   ", p, l[:260])
+    elif cmd == "twin-import":
+        # twin-import <srcdir> <name>: confirm behaviour preservation (tests + check.py on clean and patched tree), copy to /verif/twins/<name>
+        src, name = Path(sys.argv[2]), sys.argv[3]
+        wt = Path(tempfile.mkdtemp(prefix="rvtwin-")) / "wt"
+        res = {"dir": str(src), "ok": False}
+        try:
+            rc, o = sh(["git", "-C", "/repo", "worktree", "add", "-q", "--detach", str(wt), "HEAD"])
+            env = dict(os.environ, PYTHONPATH=str(wt / "src/python"))
+            chk = src / "check.py"
+            rc0, o0 = sh(["/venv/bin/python", str(chk)], cwd=wt, env=env, timeout=1800)
+            rc, o = sh(["git", "apply", str((src / "patch.diff").resolve())], cwd=wt)
+            if rc:
+                res["error"] = "apply: " + o[-200:]
+            else:
+                rct, ot = sh(["/venv/bin/python"] + [a for a in PYTEST if a != "-x"], cwd=wt, env=env)
+                tail = [l for l in ot.splitlines() if "passed" in l or "failed" in l][-1:] or [ot[-200:]]
+                rc1, o1 = sh(["/venv/bin/python", str(chk)], cwd=wt, env=env, timeout=1800)
+                res.update(tests=tail[0], check_clean_rc=rc0, check_patched_rc=rc1)
+                res["ok"] = "170 passed" in tail[0] and "failed" not in tail[0] and rc0 == 0 and rc1 == 0
+        finally:
+            sh(["git", "-C", "/repo", "worktree", "remove", "--force", str(wt)])
+            shutil.rmtree(wt.parent, ignore_errors=True)
+        if not res["ok"]:
+            print("NOT CONFIRMED", json.dumps(res))
+            sys.exit(1)
+        dst = VERIF / "twins" / name
+        dst.mkdir(parents=True, exist_ok=True)
+        for f in src.iterdir():
+            if f.is_file() and f.stat().st_size < 300_000:
+                shutil.copy(f, dst / f.name)
+        meta = json.loads((dst / "meta.json").read_text()) if (dst / "meta.json").exists() else {}
+        meta["anchored_in"] = meta.pop("property", name.split("-")[-2] if "-" in name else "")
+        meta["confirmed"] = {"by": "tools_seeded.py twin-import (scratch worktree of /repo HEAD)", "tests": res["tests"].strip("= "),
+                             "check_on_clean_tree": "exit 0", "check_with_patch": "exit 0"}
+        meta["origin"] = "independent sub-agent asked for a behaviour-preserving refactoring of the property's anchors"
+        (dst / "meta.json").write_text(json.dumps(meta, indent=1))
+        print("imported twin", name)
     elif cmd == "import":
         # import <srcdir> <newname>: confirm, copy under /verif/seeded/<newname>, augment meta.json
         src, name = Path(sys.argv[2]), sys.argv[3]
